@@ -15,21 +15,21 @@ TECH_SCHED = "deterministic simulation: seeded schedule search (shuttle random +
 TECH_POLL = "deterministic simulation with fault enumeration: the simulator polls #[cache_async] futures by hand, takes every poll boundary as suspension and as cancellation point, runs seeded interleaved programs meanwhile; model-based oracle"
 
 TEXT = {
-    "C01": ("exploration", "Seeded search over histories at two levels (core caches built directly; 289 macro-generated functions): every returned value must carry the stamp of an execution of the same function with the same arguments, and every value served from the cache must be the one last stored for that key (stamps are unique per execution, so a stale, foreign or replaced value is attributable)."),
+    "C01": ("exploration", "Seeded search over histories at two levels (core caches built directly; 289 macro-generated functions): every returned value must carry the stamp of an execution of the same function with the same arguments, and every value served from the cache must be the one last stored for that key (stamps are unique per execution, so a stale, foreign or replaced value is attributable). Plus the polling engine: a value served to a call that overlapped a suspended computation of the same key must be the one stored last."),
     "C03": ("exploration", "Seeded search over call histories on corpus functions without limit/ttl/max_memory/predicates (all three flavours, actors on fresh OS threads for thread scope): the body runs iff the model holds no entry for the key; plus seeded schedule search over 2-3 concurrent callers: no execution starts after a storing call for the same key has returned."),
-    "C04": ("exploration", "Seeded search at both levels: after every completed operation at most `limit` entries; an overflowing store removes exactly one entry, a non-overflowing one none (also after expiry purges and invalidations, which must free their capacity)."),
+    "C04": ("exploration", "Seeded search at both levels: after every completed operation at most `limit` entries; an overflowing store removes exactly one entry, a non-overflowing one none (also after expiry purges and invalidations, which must free their capacity). Plus seeded schedule search: programs that use at most `limit` distinct keys must never re-execute a key whose storing call has returned (nothing may be evicted without overflow), and general concurrent programs must respect the limit at quiescence."),
     "C05": ("exploration", "Seeded search with values of eight shapes sized around max_memory; footprints are computed by the harness independently of the library's estimator: total <= M after every store, oversize values are not cached and displace nothing, no eviction while the total fits, no more evictions than needed."),
     "C06": ("exploration", "Seeded search on a simulated clock stepped around the TTL boundary (sub-second, T-1, T, T+1, time passing inside the body, backwards for async): age >= ttl is never served and is purged so that it frees capacity; younger entries (async: younger than T-1) are served."),
     "C07": ("exploration", "Seeded search: on every overflow (entry limit or max_memory) the removed key must be the oldest store (FIFO) / the least recently used (LRU) of the reference model, at both levels."),
     "C08": ("exploration", "Seeded search: the victim of every overflow must lie in the admissible set argmin(score) of the documented LFU / ARC / TLRU scores (ties tolerated, relative tolerance 1e-9), for entry and memory pressure, weights {-,0.1,0.3,1,1.5,3}, ttl {-,1..3}."),
-    "C09": ("exploration", "Seeded search with an arbitrary Ok/Err script per call on Result-returning corpus functions (both spellings, three flavours, with/without limit and max_memory): an Err is never listed/served, the first Ok is stored and served."),
-    "C10": ("exploration", "Seeded search with scripted cache_if verdicts: rejected results are not stored, accepted ones are (sync Result: only Ok), and the predicate log shows exactly one consultation per execution with that execution's value and key, none on hits."),
-    "C11": ("exploration", "Seeded search with scripted invalidate_on verdicts that flip between calls: a stale verdict forces re-execution and the fresh value replaces the stale one (served next time), a valid verdict serves without running; consultation log checked."),
+    "C09": ("exploration", "Seeded search with an arbitrary Ok/Err script per call on Result-returning corpus functions (both spellings, three flavours, with/without limit and max_memory): an Err is never listed/served, the first Ok is stored and served. Plus the polling engine: an Err that completes late must not disturb an Ok stored by an overlapping call."),
+    "C10": ("exploration", "Seeded search with scripted cache_if verdicts: rejected results are not stored, accepted ones are (sync Result: only Ok), and the predicate log shows exactly one consultation per execution with that execution's value and key, none on hits. Plus the polling engine (two in-flight executions of one key keep their own verdicts)."),
+    "C11": ("exploration", "Seeded search with scripted invalidate_on verdicts that flip between calls: a stale verdict forces re-execution and the fresh value replaces the stale one (served next time), a valid verdict serves without running; consultation log checked. Plus the polling engine (refresh of a stale entry across a suspension)."),
     "C12": ("exploration", "Seeded search over universes of 3-6 sync+async functions with overlapping tag/event/dependency names: returned counts equal the number of registered matching caches, each is listed empty afterwards, unknown names return 0/false. The 'not used yet' clause is decided in the scheduled build where registration state is per execution."),
     "C13": ("exploration", "Seeded search with arbitrary key subsets as predicates: key listing after = before minus exactly the matching keys for every cache; the history continues and every later overflow / victim / total must agree with the model from which the keys were deleted."),
-    "C14": ("exploration", "Seeded search with 2-4 real OS threads as actors run one at a time by the simulator (late respawn = thread exit + fresh thread): one model per thread for scope=thread, one shared model for global/async."),
+    "C14": ("exploration", "Seeded search with 2-4 real OS threads as actors run one at a time by the simulator (late respawn = thread exit + fresh thread): one model per thread for scope=thread, one shared model for global/async. Plus seeded schedule search on shared caches: while at most `limit` distinct keys are in use a value whose storing call has returned must be served to every later caller on every thread."),
     "C15": ("exploration", "Seeded search: after every operation stats_registry::get(name) of every cache in the universe equals the model's (hits, misses); reset(name) zeroes only that name; plus schedule search with 2-3 threads: hits+misses = calls, misses = executions, with a scheduling point inside every counter operation."),
-    "C16": ("exploration", "The configuration product (3 flavours x 6 policies x limit 1-4 x ttl {-,1,2,3} x max_memory {-,small} x weight (6) = 3456) is enumerated completely by every run of the check, each configuration with seeded histories that overflow, expire, re-store and hit the memory path; plus the whole corpus at macro level; every operation under catch_unwind, overflow checks on."),
+    "C16": ("exploration", "The configuration product (3 flavours x 6 policies x limit 1-4 x ttl {-,1,2,3} x max_memory {-,small} x weight (6) = 3456) is enumerated completely by every run of the check, each configuration with seeded histories that overflow, expire, re-store and hit the memory path; plus the whole corpus at macro level; every operation under catch_unwind, overflow checks on. Plus seeded schedule search (a panic that needs an interleaving) and a real-time watchdog that reports an operation that never returns."),
     "C17": ("exploration", "Seeded schedule search (uniform random and PCT) at lock-acquisition granularity over 2-3 simulated threads running generated programs of cached calls, group / conditional invalidations and statistics queries on real cachelito code over scheduled lock shims; shuttle's deadlock detector and a step budget are the oracle."),
     "C18": ("exploration", "Same schedule search; every call's value is checked inside the threads, and at quiescence the key listing respects limit / max_memory and a sequential probe history is checked by the reference model (every surviving entry can still be evicted, expired and invalidated)."),
     "C19": ("exploration", "Differential simulation: each corpus function and a directly constructed core cache configured with the attribute values as written are driven through the same seeded history (same clock script, same fastrand seed, same body script); hit/miss/execution traces and key listings must be identical. Compile-accept = the corpus builds; compile-reject is a non-simulation adjunct (generated invalid items must be rejected by rustc)."),
@@ -46,8 +46,10 @@ def main():
         level, text = TEXT[pid]
         engines = [part["engine"] for part in PLAN[pid]["parts"]]
         tech = TECH_SEQ
-        if "poll" in engines:
+        if engines == ["poll"]:
             tech = TECH_POLL
+        elif "poll" in engines and "sched" not in engines:
+            tech = TECH_SEQ + "; plus manual polling of the generated futures (suspension / cancellation enumeration) for the async clause"
         elif engines == ["sched"]:
             tech = TECH_SCHED
         elif "sched" in engines:
